@@ -65,6 +65,22 @@ def ack_rules(ctx, ob, v, tag):
         if not okk:
             ob.refute("%s:abort-sticky:%s" % (tag, st), "%s: in state %s the abort flag is updated with %s, expected ~cyc | %s (sticky): a cycle dropped and "
                       "re-opened before the memory answers is no longer recognised as aborted" % (tag, st, [key(u.value) for u in upd], ab), (upd or ls)[0].loc)
+    # every state on the way from the idle state to an acknowledging state (waiting for the read command to be accepted, ...) must notice a dropped
+    # cycle as well: it either returns to idle under ~cyc or records ~cyc in the abort flag
+    ack_states = {l.state for l in acks if l.state != idle}
+    for st in f.states:
+        if st == idle or st in ack_states:
+            continue
+        succ = {d for s_, d, _ in edges if s_ == st}
+        if not (succ & ack_states):
+            continue
+        ls = v.fsm_leaves(f, st)
+        leaves_on_drop = any(l.kind == "next" and isinstance(l.value, Const) and l.value.v == idle and "~" + CYC in v.guard_keys(l, False) for l in ls)
+        records = any(l.kind == "nextvalue" and key(l.target) == ab and not is0(l.value) for l in ls)
+        ob.instance("%s: waiting state %s before an acknowledging state" % (tag, st), {"returns to idle on ~cyc": leaves_on_drop, "records ~cyc": records})
+        if not (leaves_on_drop or records):
+            ob.refute("%s:drop-unnoticed:%s" % (tag, st), "%s: state %s waits (for the native command) before an acknowledging state but neither returns to idle on ~cyc nor "
+                      "records it in %s: a cycle dropped and re-opened while waiting there is acknowledged with the old access's data" % (tag, st, ab), ls[0].loc if ls else None)
     clr = [l for l in v.fsm_leaves(f) if l.kind == "nextvalue" and key(l.target) == ab and is0(l.value)]
     if any(l.state != idle for l in clr):
         ob.refute("%s:abort-clear" % tag, "%s: the abort flag is cleared outside the idle state" % tag, clr[0].loc)
@@ -212,6 +228,22 @@ def run(ctx):
         ks = [nkeys(v, conj(a, p)) for a, p in dj]
         okm = {"~" + WV} in ks and any(len(k) == 2 and any(WIDE in x and "==" in x for x in k) and any(x.startswith("~(") and "&" in x for x in k) for k in ks)
     ob3.instance("wr_can_merge", key(cm) if cm is not None else None)
+    if okm:
+        # the data path ORs whole lanes together, so "free" must be tested per LANE: both operands of the free test are ratio (= 4) bits wide
+        for a_, p_ in dj:
+            for x_, q_ in conj(a_, p_):
+                if (not q_) and isinstance(x_, Op) and x_.op == "&":
+                    ws_ = []
+                    for o_ in x_.args:
+                        o2 = o_ if isinstance(o_, Obj) else None
+                        w_ = o2.args[0].v if (o2 is not None and o2.args and isinstance(o2.args[0], Const)) else None
+                        if w_ is None and o2 is not None and isinstance(o2.meta.get("like"), Obj) and o2.meta["like"].args and isinstance(o2.meta["like"].args[0], Const):
+                            w_ = o2.meta["like"].args[0].v
+                        ws_.append(w_)
+                    ob3.instance("free-lane test operands", {key(o_): w_ for o_, w_ in zip(x_.args, ws_)})
+                    if any(w_ is not None and w_ != 4 for w_ in ws_):
+                        ob3.refute("free-test-granularity", "the merge condition tests free BYTES (%s, widths %s) but the merged data is OR-ed per 32-bit lane: a second partial write to "
+                                   "a lane that already holds a beat is accepted and its unselected data bytes are OR-ed into the pending word" % (key(x_), ws_), None)
     if not okm:
         ob3.refute("can-merge", "the merge condition is %s, expected ~pending | ((pending_addr == wide_addr) & ((selected_lanes & lane_bit) == 0))" % (key(cm) if cm is not None else None), None)
     lanes_d, lanes_w = {}, {}
